@@ -34,7 +34,7 @@ type aofCfg struct {
 	Pipeline bool   `json:"pipeline"` // pipelined sending
 	Count    uint   `json:"count"`    // BatchCmdCount
 	Bytes    uint64 `json:"bytes"`    // BatchBufferSize
-	DbMode   string `json:"dbmode"`   // "id" | "map12" | "all0" | "shift" | "swap"
+	DbMode   string `json:"dbmode"`   // "id" | "map12" | "all0" | "shift" | "swap" | "onto5" | "merge" | "all3"
 	Probe    bool   `json:"probe,omitempty"` // input.syncDelayTestKey configured: the stream may carry the tool's own delay probe
 }
 
@@ -68,6 +68,15 @@ func (c aofCfg) model(startDB int) modelCfg {
 		m.DbMap = map[int]int{0: 1, 1: 2}
 	case "swap":
 		m.DbMap = map[int]int{0: 1, 1: 0}
+	case "onto5":
+		// an allowed source database mapped onto the NUMBER of the black-listed source database
+		m.DbMap = map[int]int{1: blackDB}
+	case "merge":
+		// many-to-one: two allowed source databases share one target database
+		m.DbMap = map[int]int{1: 0, 2: 0}
+	case "all3":
+		// every source database goes into one target database other than the connection's initial one
+		m.TargetDb = 3
 	}
 	return m
 }
